@@ -335,6 +335,17 @@ Definition tokens_agree (template : str) : bool :=
 Definition jsr_tokens_agree (w : service) (r : route) : bool :=
   tokens_agree (s_root w) && tokens_agree (r_rel r).
 
+(* ... and the variable names path_expression.go records (VarNames) are the names of the structural tokens *)
+Definition tk_name (t : tk) : option str :=
+  match t with TLit _ => None | TVar n | TRx n _ | TSuf n _ | TTail n => Some n end.
+Definition opt_str_eqb (a b : option str) : bool :=
+  match a, b with Some x, Some y => str_eqb x y | None, None => true | _, _ => false end.
+Definition names_agree (template : str) : bool :=
+  forallb (fun s => opt_str_eqb (snd (etok_of s)) (tk_name (v_tk (parse_tok false s))))
+          (filter (fun t => negb (str_eqb t [])) (tokenize template)).
+Definition jsr_names_agree (w : service) (r : route) : bool :=
+  names_agree (s_root w) && names_agree (r_rel r).
+
 (* ------------------------------------------------------------------------- *)
 (* router-independent wrappers                                                *)
 Section SpecBoth.
